@@ -654,7 +654,7 @@ def boundary(spec, setting, mk, limit=128, real=False):
     out = []
 
     def case(ops):
-        out.append({'spec': spec, 'ops': ops, 'q': [setting, 'nope'], 'ql': True})
+        out.append({'spec': spec, 'ops': ops, 'q': [setting, 'nope'], 'ql': True, 'noshrink': True})
     for sc in (['INSTANCE'] if real else ['INSTANCE', 'SESSION']):
         case([['ADD', sc, setting, mk(i), ['a'] if i < limit else ['x']] for i in range(limit + 2)])
     for n in (limit - 1, limit, limit + 1):
@@ -678,7 +678,7 @@ def boundary_scalar(spec, setting, elems, canon, limit=128):
         out.append({'spec': spec, 'ops': [['SET', 'SESSION', setting, items, lab],
                                           ['SET', 'SESSION', setting, items + [elems(0)] * 3, lab],   # duplicates do not count
                                           ['ADD', 'SESSION', setting, elems(0)]],
-                    'q': [setting, 'nope']})
+                    'q': [setting, 'nope'], 'noshrink': True})
     return out
 
 
@@ -1117,7 +1117,13 @@ def shrink(case, pred, batch_pred=None):
     candidates in a single run of the implementation (start-up with the real spec costs seconds)"""
     ops = list(case['ops'])
     changed = True
-    while changed and len(ops) > 1:
+    import time as _time
+    t0 = _time.time()
+    # boundary histories carry labels that depend on the whole history (the 129th INSERT "must be
+    # rejected" only after 128 accepted ones): they are minimal by construction and are not shrunk
+    if case.get('noshrink') or len(ops) > 40:
+        return case
+    while changed and len(ops) > 1 and _time.time() - t0 < 120:
         changed = False
         cands = [dict(case, ops=ops[:i] + ops[i + 1:]) for i in range(len(ops))]
         if batch_pred is not None:
@@ -1277,7 +1283,7 @@ def run(tier):
             continue
         key = (strip_tag(tag), would)
         viol_tags.setdefault(key, []).append(i)
-    for (tag, would), idxs in sorted(viol_tags.items(), key=lambda kv: (kv[0][1] is not None, kv[0][0].startswith('edgeql-'),
+    for (tag, would), idxs in sorted(viol_tags.items(), key=lambda kv: (kv[0][1] is not None, not kv[0][0].startswith('set-too-large'), kv[0][0].startswith('edgeql-'),
                                                                    kv[0][0].startswith('json-'), -len(kv[1])))[:5]:
         i = idxs[0]
 
